@@ -46,16 +46,21 @@ Ltac unf_helpers :=
 Ltac unf := unfold trans; unf_helpers.
 
 (* goal: [<expression made of matches> = Some y -> Q]: follow the path of the expression, one goal per path *)
+(* destruct the scrutinee [s]; a projection of a chain of record updates that [cbn] left alone is reduced first *)
+Ltac destruct_scrut s :=
+  let v := eval cbn in s in
+  tryif constr_eq s v then destruct s eqn:? else (change s with v; destruct v eqn:?).
+
 Ltac split_goal :=
   repeat (cbn;
     lazymatch goal with
     | |- Some ?e = Some _ -> _ =>
         lazymatch e with
-        | context[match ?s with _ => _ end] => let s' := head_scrut s in destruct s' eqn:?
+        | context[match ?s with _ => _ end] => let s' := head_scrut s in destruct_scrut s'
         | _ => fail
         end
     | |- None = Some _ -> _ => let H := fresh in intro H; discriminate H
-    | |- ?L = Some _ -> _ => let s := head_scrut L in destruct s eqn:?
+    | |- ?L = Some _ -> _ => let s := head_scrut L in destruct_scrut s
     end).
 
 Ltac bool_hyps :=
@@ -70,7 +75,7 @@ Ltac bool_hyps :=
 (* goal: [trans k fe fc fl x a = Some y -> Q x y] with x a constructor application ([destruct x] first) *)
 Ltac step_cases fin :=
   unf; split_goal;
-  (let H := fresh in intro H; injection H as <-); cbn in *; bool_hyps; fin.
+  (let H := fresh in intro H; injection H as <-); subst; cbn in *; bool_hyps; fin.
 
 (* ------------------------------------------------------------------------------------------------ *)
 (** * Runs *)
@@ -208,4 +213,22 @@ Proof.
   intros (A & B & C) D. destruct x; cbn in *. destruct a.
   all: step_cases ltac:(try (intuition (try congruence; try lia))).
 Qed.
+
+
+(* ---- C14 (b): the status callback is invoked exactly at the state changes ---- *)
+Lemma trace_step fe fc fl x a y : trans k fe fc fl x a = Some y ->
+  (st y = st x /\ trace y = trace x) \/ (st y <> st x /\ trace y = st y :: trace x).
+Proof.
+  destruct x; cbn in *. destruct a.
+  all: step_cases ltac:(try (left; split; reflexivity); try (right; split; [congruence|reflexivity])).
+Qed.
+
+(* ---- C14 (a): CLOSED is absorbing, no connection attempt starts once CLOSED ---- *)
+Lemma closed_step fe fl x a y : st x = Closed -> trans k fe true fl x a = Some y ->
+  st y = Closed /\ attempts y = attempts x /\ trace y = trace x.
+Proof.
+  intros C. destruct x; cbn in C; subst. destruct a.
+  all: step_cases ltac:(auto).
+Qed.
+
 End Inv.
